@@ -667,6 +667,17 @@ func (g *gen) fixImports(f *ast.File) {
 	}
 }
 
+// oldLang reports whether the package's module declares a language version
+// without generics.
+func oldLang(p *packages.Package) bool {
+	if p.Module == nil || p.Module.GoVersion == "" {
+		return false
+	}
+	var maj, min int
+	fmt.Sscanf(p.Module.GoVersion, "%d.%d", &maj, &min)
+	return maj == 1 && min < 21
+}
+
 func buildLine(src []byte) string {
 	for _, l := range strings.Split(string(src), "\n") {
 		t := strings.TrimSpace(l)
@@ -792,7 +803,18 @@ func main() {
 			f.Comments = nil
 			stripDocs(f)
 			var buf bytes.Buffer
-			if bl := buildLine(src); bl != "" {
+			bl := buildLine(src)
+			if oldLang(p) {
+				// the rewritten code uses generics (mcrt.Chan[T], SortedKeys): a
+				// go1.N build constraint raises the file's language version above
+				// the one its module's go.mod declares
+				if bl == "" {
+					bl = "//go:build go1.21"
+				} else {
+					bl = "//go:build (" + strings.TrimPrefix(bl, "//go:build ") + ") && go1.21"
+				}
+			}
+			if bl != "" {
 				buf.WriteString(bl + "\n\n")
 			}
 			buf.WriteString("// Code generated by mcgen from " + path + "; DO NOT EDIT.\n\n")
